@@ -1,20 +1,13 @@
 package scratch
-import ("testing";"context";"fmt"
- "github.com/bufbuild/protocompile"
- "pgregory.net/rapid"
- "verif/harness/gen")
+import ("testing";"fmt";"pgregory.net/rapid")
 func TestS(t *testing.T){
- fails:=map[string]int{}
- n:=0; rel:=0
+ a,b,c,d,n:=0,0,0,0,0
  rapid.Check(t, func(rt *rapid.T){
-  ws:=gen.GenWorkspace(rt, gen.Config{})
-  rel+=gen.RespellRefs(rt, ws)
-  files:=ws.PrintAll()
-  c:=protocompile.Compiler{Resolver: protocompile.WithStandardImports(&protocompile.SourceResolver{Accessor: protocompile.SourceAccessorFromMap(files)})}
-  _,err:=c.Compile(context.Background(), ws.Names()...)
   n++
-  if err!=nil { fails[err.Error()]++; if len(fails)<=2 && fails[err.Error()]==1 { for k,v:=range files { fmt.Printf("--- %s\n%s\n",k,v)}; fmt.Println("ERR:",err) } }
+  if rapid.IntRange(0,99).Draw(rt,"x")<15 {a++}
+  if rapid.Uint64().Draw(rt,"u")%100<15 {b++}
+  if rapid.SampledFrom([]int{0,1,2,3,4,5,6,7,8,9,10,11,12,13,14,15,16,17,18,19}).Draw(rt,"s")<3 {c++}
+  if rapid.Float64Range(0,1).Draw(rt,"f")<0.15 {d++}
  })
- fmt.Println("cases",n,"relative refs",rel,"distinct failures",len(fails))
- for k,v:=range fails { fmt.Println(v,k) }
+ fmt.Println(n,a,b,c,d)
 }
